@@ -460,6 +460,9 @@ func genHistory(c *core.Chooser, prop string, tid int, maxOps int) []hop {
 			if c.Prob(1, 40) {
 				// far beyond 255 parts: the call is refused (and says so in its own words)
 				o.text = strings.Repeat(o.text, 1+(36000+c.Intn(30000))/max(len(o.text), 1))
+			} else if c.Prob(1, 25) {
+				// dozens to a couple of hundred parts: sizes at which an implementation may start to parallelise
+				o.text = strings.Repeat(o.text, 1+(5000+c.Intn(20000))/max(len(o.text), 1))
 			}
 			o.ref = byte(c.Intn(256))
 		case 4:
@@ -608,6 +611,11 @@ func execOp(r *core.Run, t *taskState, o hop) (live any, label string, panicked 
 				return
 			}
 			t.consumed += len(view)
+			// the frame handed over is, octet for octet, what the peer sent (an expectation that does not come from
+			// the reference pass, which runs the same library)
+			if sent := t.link.stream[max(0, t.consumed-len(view)):min(t.consumed, len(t.link.stream))]; !bytes.Equal(view, sent) && r.Cfg.Property != "" {
+				r.Fail(r.Cfg.Property, "input-buffer-written", label, "the-frame-itself", "task %d: the frame the extractor returned differs from the octets sent (%s … instead of %s …)", t.id, hexN(view, 8), hexN(sent, 8))
+			}
 			defer func() {
 				// the octets still unread in the connection's buffer belong to the connection: they must be what the
 				// peer sent, whatever the decoder did with the frame in front of them
@@ -956,6 +964,21 @@ func execOp(r *core.Run, t *taskState, o hop) (live any, label string, panicked 
 			if o.coding == 1 {
 				// the same text was built under another reference just before
 				_, _, _ = b.Content(o.text, o.ref^0x80).Build(ctx)
+			}
+			if int(o.ref)%5 == 2 {
+				// an original coding that is valid but not among the candidates (on a builder of its own: the task's
+				// kept builder serves both protocols, and an origin of the other family is outside the contract)
+				b = protocol.NewBatchDataCodingEncoder().Protocol(pr)
+				if o.smpp {
+					b.OriginDataCoding(datacoding.SMPP_CODING_GSM7_PACKED)
+					dcs = dcs[:0:0]
+					dcs = append(dcs, datacoding.SMPP_CODING_ASCII, datacoding.SMPP_CODING_UCS2)
+				} else {
+					b.OriginDataCoding(datacoding.CMPP_CODING_GBK)
+					dcs = dcs[:0:0]
+					dcs = append(dcs, datacoding.CMPP_CODING_ASCII, datacoding.CMPP_CODING_UCS2)
+				}
+				b.DataCodings(dcs)
 			}
 			parts, coding, err := b.Content(o.text, o.ref).Build(ctx)
 			if err == nil && o.coding == 2 {
